@@ -10,6 +10,7 @@
 //! `VIOLATION property=<id> replay=<path>` line), 2 harness error.
 
 mod check;
+mod combo;
 mod corpus;
 mod exec;
 mod findings;
@@ -714,6 +715,10 @@ fn cmd_dump() -> i32 {
     for h in 0..corpus::DER_HANDLES {
         let hd = corpus::der_handle(h);
         let m = &corpus::MANIFEST[h];
+        if !corpus::usable(h) {
+            println!("{:10} cannot be rendered (excluded)", m.label);
+            continue;
+        }
         if matches!(m.place, corpus::Place::NotExportable) {
             println!("{:10} not exportable: name={}", m.label, (hd.name)());
             continue;
